@@ -171,6 +171,7 @@ impl Property for C17 {
         vec![
             "the memo is instrumented in a fork of nom-packrat 0.7.0 vendored under /verif/sim/vendor (capacity override, counters, optional flag-aware key); with no knob turned it is the upstream code".into(),
             "only FIFO tables of a fixed capacity are explored, never a mid-parse purge".into(),
+            "the known-finding discriminators are interventions on the memo (flag-aware key on a capacity ladder; keyword directives blanked out; keyword set frozen) and change which entries are resident: a residency-dependent defect in expression-heavy input can vanish with them and be attributed to the recursion-flag finding (seeded change C17-r6b is observed and then attributed; DESIGN.md section 13)".into(),
             "inputs are bounded to 6000 steps at the declared capacity; a divergence whose flag-aware discriminator exhausts its budget is reported as unattributed and does not fail the check".into(),
         ]
     }
